@@ -174,11 +174,12 @@ def c09(res, tier, seed):
         raise yv.Broken("non-vacuity run MC_SigHandler_nomask.cfg violated neither NeverKilled nor MaskRestored")
     res.cov["parts"]["nonvacuity_signal_mask_not_saved"] = "violated as expected"
     nT = 4 if tier == "quick" else 12
-    bus = ["ext i ext_t 0", "rules - " + yv.hx(b'rule t { strings: $a = "needle" condition: $a }'), "data 0 " + yv.hx(b"a needle in a haystack"), "data 1 " + yv.hx(b"needle")]
+    bus = ["ext i ext_t 0", "rules - " + yv.hx(b'rule t { strings: $a = "needle" condition: $a }'), "data 0 " + yv.hx(b"a needle in a haystack"), "data 1 " + yv.hx(b"needle"),
+           "datarep 2 %s %d" % (yv.hx(b"needle haystack."), 1 << 20)]        # 16 MiB: a scan of it lasts long enough for the other threads' faults to fall inside it
     for t in range(nT):
         bus += ["thread %d" % t]
-        if t % 2 == 0: bus += ["scan 1 mem - 0 2", "scan 0 bus - 0 1", "scan 1 mem - 0 1", "scan 0 bus - 0 2", "scan 1 mem - 0 1"]
-        else: bus += ["scan 1 mem - 0 %d" % (3 if tier == "quick" else 40), "scan 0 bus - 0 1", "scan 1 file - 0 2"]
+        if t % 2 == 0: bus += ["scan 0 bus - 0 2", "scan 1 mem - 0 1", "scan 0 bus - 0 2", "scan 1 mem - 0 1", "scan 0 bus - 0 1"]
+        else: bus += ["scan 2 mem - 0 %d" % (3 if tier == "quick" else 8), "scan 0 bus - 0 1", "scan 1 file - 0 2"]
     bus.append("go")
     for rep in range(2 if tier == "quick" else 6):
         rc, err, od = run_plan("plain", bus, wd, "bus_%d" % rep, timeout=300)
